@@ -6,9 +6,12 @@ OUT=$(mktemp -d /tmp/seedmx.XXXXXX)
 export VERIF_OUT=$OUT/out
 echo "[" > $OUT/res.json
 first=1
+# optional arguments: seed ids to (re)run; their results replace / extend the entries of seeded/RESULTS.json, the others are kept
+ONLY=" $* "
 for d in $HERE/seeded/C*/; do
   id=$(basename $d)
   [ -f $d/patch.diff ] || continue
+  if [ $# -gt 0 ] && [[ "$ONLY" != *" $id "* ]]; then continue; fi
   log=$OUT/$id.log
   prop=${id%%_*}
   "$HERE/bin/with_patch" $d/patch.diff $prop > $log 2>&1
@@ -24,5 +27,13 @@ for d in $HERE/seeded/C*/; do
   echo "$id exit=$rc violations=$nviol undecided=$nund faults=$nfault"
 done
 echo "]" >> $OUT/res.json
-python3 -c "import json,sys; d=json.load(open('$OUT/res.json')); json.dump(d, open('$HERE/seeded/RESULTS.json','w'), indent=1)"
+python3 - "$OUT/res.json" "$HERE/seeded/RESULTS.json" "$#" <<'PY'
+import json, os, sys
+new = json.load(open(sys.argv[1]))
+if int(sys.argv[3]) > 0 and os.path.exists(sys.argv[2]):
+    old = {x['seed']: x for x in json.load(open(sys.argv[2]))}
+    old.update({x['seed']: x for x in new})
+    new = [old[k] for k in sorted(old)]
+json.dump(new, open(sys.argv[2], 'w'), indent=1)
+PY
 rm -rf $OUT
